@@ -101,6 +101,9 @@ def layout(tokens, mode):
                 put('\r\n   ' if i % 3 == 0 else ' ')
             elif mode == 'C':
                 put('\r' if i % 4 == 0 else '\t')
+            elif mode == 'D':
+                # comments between the tokens of a module: a text may be cut inside any of them
+                put(' -- note %d: see END of section; \n' % i if i % 3 == 0 else ' --x\n' if i % 3 == 1 else ' ')
             else:
                 put(' ')
         offs.append(pos)
@@ -169,11 +172,16 @@ def module_spans(tokens, offs):
 class Prefixes(object):
     case_timeout = None  # run_parse() owns the interval timer
     name = 'prefixes'
-    describe = 'every proper prefix (every character offset) of every seed text in an LF and a CRLF layout'
+    describe = ('every proper prefix (every character offset) of every seed text in an LF and a CRLF layout, and in a layout with '
+                'comments between the tokens (a text may end inside a comment)')
 
     def blocks(self, tier):
         seeds = QUICK_SEEDS + (MORE_SEEDS if tier == 'thorough' else [])
-        return [{'e': s, 'mode': m} for s in seeds for m in ('A', 'B')]
+        out = [{'e': s, 'mode': m} for s in seeds for m in ('A', 'B')]
+        # ... and in a layout with comments between the tokens (quick: six seeds)
+        out += [{'e': s, 'mode': 'D'} for s in (seeds if tier == 'thorough' else
+                                                ['ot-parts-0', 'imports-2', 'two-modules', 'table', 'mi-2-2', 'trap-2-True-True'])]
+        return out
 
     def cases(self, block, tier):
         e = entry(block['e'])
